@@ -115,8 +115,30 @@ def run(ctx):
     findings = {e["id"] for e in ctx.get("findings", []) if e.get("status") == "finding"}
     sigs = set()
     lines, expect = [], []
-    for k in range(n_cases):
-        tz, df, electric, with_ghi = gen_input(rng, thorough)
+    def complete_unordered(j):
+        """every hour of whole local days present (NaN cells allowed), delivered out of chronological order: newest first, two
+        exports appended later-first, or shuffled — the frame must still come back as the ascending whole-day range"""
+        tz = ZONES[j % len(ZONES)]
+        days = [3, 40, 61][j % 3]
+        first = pd.Timestamp(2021, 1 + (5 * j) % 12, 1 + (7 * j) % 27)
+        start = first.tz_localize(tz, ambiguous=True, nonexistent="shift_forward")
+        end = pd.Timestamp(dt.datetime.combine((first + pd.Timedelta(days=days - 1)).date(), dt.time(23))).tz_localize(tz, ambiguous=False, nonexistent="shift_forward")
+        idx = pd.date_range(start.tz_convert("UTC"), end.tz_convert("UTC"), freq="h").tz_convert(tz)
+        h = np.arange(len(idx))
+        df = pd.DataFrame({"temperature": np.round(50 + 15 * np.sin(h / 24 * 6.283), 3), "observed": np.round(2.0 + np.abs(np.sin(h / 12.0)), 4)}, index=idx)
+        df.iloc[5:8, 0] = np.nan
+        how = ["newest_first", "later_export_first", "shuffled"][(j // 3) % 3]
+        if how == "newest_first":
+            df = df.iloc[::-1]
+        elif how == "later_export_first":
+            df = pd.concat([df.iloc[len(df) // 2:], df.iloc[: len(df) // 2]])
+        else:
+            df = df.sample(frac=1.0, random_state=j)
+        return tz, df, bool(j % 2), False
+
+    n_directed = 9 if not thorough else 27
+    for k in range(n_cases + n_directed):
+        tz, df, electric, with_ghi = gen_input(rng, thorough) if k >= n_directed else complete_unordered(k)
         cls = HourlyBaselineData if k % 2 == 0 else HourlyReportingData
         desc = dict(zone=tz, rows=len(df), first=str(df.index.min()), last=str(df.index.max()), electric=electric, ghi=with_ghi, data_class=cls.__name__,
                     sorted=bool(df.index.is_monotonic_increasing), duplicated=int(df.index.duplicated().sum()))
